@@ -1,7 +1,9 @@
+CONSTANT BSel = {1, 2, 3, 4, 5, 6, 7, 8, 9, 10}
+CONSTANT ChainSel = {"add-sub", "sub-add", "mul-div", "div-mul"}
 CONSTANT F12Fixed = TRUE
 CONSTANT B256CmpFixed = TRUE
-CONSTANT ClsSel = {"bin","shift","not","widen","narrow","chain"}
-CONSTANT TySel = {"u256"}
+CONSTANT ClsSel = {"agg"}
+CONSTANT TySel = {"u8","u64","u256"}
 SPECIFICATION Spec
 INVARIANT Agreement
 INVARIANT NoSubstitution
